@@ -372,6 +372,7 @@ impl World {
 }
 
 fn exec_seq(ops: &[Op]) -> Sx {
+    c06::progress();
     let mut w = World::new(None);
     let mut obs = vec![];
     for &op in ops {
@@ -488,6 +489,7 @@ fn apply_shared(world: &Arc<Mutex<World>>, op: Op, drops: Option<&Mutex<Vec<(usi
 
 /// One scheduled run: `setup` on the calling thread, then the per-thread programs under `choose`.
 fn exec_threads(setup: &[Op], prog: &[(usize, Op)], choose: &mut dyn FnMut(&[usize]) -> usize) -> (Sx, Vec<usize>, Vec<usize>) {
+    c06::progress();
     let nthreads = prog.iter().map(|(t, _)| *t + 1).max().unwrap_or(0);
     let mut w = World::new(None);
     for &op in setup {
@@ -600,6 +602,7 @@ fn explore(out: &mut Out, setup: &[Op], prog: &[(usize, Op)], limit: usize, rng:
 
 /// Free-running real threads, sync points perturbed by seeded yields; judged by the predicate only.
 fn exec_stress(setup: &[Op], prog: &[(usize, Op)], seed: u64) -> Result<(), String> {
+    c06::progress();
     c06::install_controller();
     let nthreads = prog.iter().map(|(t, _)| *t + 1).max().unwrap_or(0);
     let events = Arc::new(Events::default());
@@ -971,6 +974,7 @@ fn count_ops(out: &mut Out, ops: &[Op]) {
 }
 
 pub fn run(ctx: &Ctx) {
+    c06::start_watchdog();
     if std::env::var("MV_LOUD").is_err() { crate::common::quiet_panics(); }
     let mut out = Out::new(ctx, "");
     let emit = |out: &mut Out, case: Sx| {
